@@ -244,6 +244,7 @@ int main(int argc, char** argv) {
       if (v == ctorv::INVALID) f.push_back({"rule", ctorv::rule()});
       std::string cls; for (size_t i = 0; i < t.size(); ++i) { bool isbase = false; for (auto& b : c.bases) if (mc::same_bits(b[i], t[i])) isbase = true; if (!isbase) cls += (cls.empty() ? "" : ",") + c.names[i] + "=" + (c.kinds[i] == 'i' || c.kinds[i] == 'n' || c.kinds[i] == 'b' ? fmt(t[i]) : std::string(fault::value_class(t[i]))); }
       f.push_back({"args", cls});
+      for (size_t i = 0; i < t.size(); ++i) if (c.kinds[i] != 'i' && c.kinds[i] != 'n' && c.kinds[i] != 'b') f.push_back({"cls." + c.names[i], fault::value_class(t[i])});
       return f;
     };
     for (size_t u0 = 0; u0 < tuples.size(); u0 += UNIT) {
